@@ -1,6 +1,6 @@
 SPECIFICATION GSpec
-CONSTANTS N = 3
-          DOUBLE = FALSE
+CONSTANTS N = 2
+          DOUBLE = TRUE
 CHECK_DEADLOCK FALSE
 INVARIANT Emit
 INVARIANT IdsUnique
